@@ -117,6 +117,9 @@ def _build(c, variant=0, legacy=None):
     return Revision(**_kwargs(c, variant, legacy))
 
 
+_LAST_ID = [b"\x02" * 20]
+
+
 def impl(c):
     from swh.model import git_objects
     from swh.model.model import Revision
@@ -134,6 +137,14 @@ def impl(c):
             warnings.simplefilter("ignore")
             # deprecated routes: plain dicts instead of model objects
             res["manifest_from_dict_arg"] = git_objects.revision_git_object(r.to_dict()).hex()
+            # ... carrying an id that is not its own (one value for the whole run, and the id of the previous case):
+            # the id key of the dict must not decide what is formatted
+            for stale in (b"\x01" * 20, _LAST_ID[0]):
+                git_objects.revision_git_object(dict(r.to_dict(), id=stale, message=b"another revision"))      # another object seen under that id first (self-contained replay)
+                m2 = git_objects.revision_git_object(dict(r.to_dict(), id=stale)).hex()
+                if m2 != res["manifest_from_dict_arg"]:
+                    res["manifest_from_dict_arg"] = "differs when the dict carries the id %s: %s" % (stale.hex(), m2[:80])
+            _LAST_ID[0] = r.id
             if c["date"] is not None:
                 res["format_date_dict"] = git_objects.format_date({"seconds": c["date"][0], "microseconds": c["date"][1]}).hex()
                 res["format_date_obj"] = git_objects.format_date(r.date.timestamp).hex()
